@@ -154,9 +154,18 @@ def replay(sim, plan, tx, viol, run_light):
             mults.setdefault(s.name, set()).add(float(s.multiplier))
     if any(len(v) > 1 for v in mults.values()):
         return False  # one name, several multipliers: the flat replay tree cannot represent it
+    classes = {}
+    for s in root.members:
+        if not hasattr(s, "capital"):
+            classes.setdefault(s.name, set()).add(type(s).__name__)
+    if any(len(v) > 1 for v in classes.values()):
+        return False  # one name, several node classes: the flat replay tree cannot represent it
     f = dict(plan["feed"])
     f["bidoffer"] = [[0.0 for _ in f["tickers"]] for _ in f["dates"]]
-    tree = {"k": "S", "name": "replay", "cls": "Strategy", "fi": False, "how": "list", "children": [{"k": "X", "name": t, "cls": "Security", "mult": list(mults[t])[0], "decl": "obj"} for t in tickers], "algos": [{"a": "ReplayTransactions", "args": ["tx"]}]}
+    fi = bool(root.fixed_income)
+    # the replay book is of the same kind as the original (market value or notional accounting, same node class per ticker:
+    # coupons and holding costs accrue on the replayed positions as they did on the original ones)
+    tree = {"k": "S", "name": "replay", "cls": "FixedIncomeStrategy" if fi else "Strategy", "fi": fi, "how": "list", "children": [{"k": "X", "name": t, "cls": list(classes[t])[0], "mult": list(mults[t])[0], "decl": "obj"} for t in tickers], "algos": [{"a": "ReplayTransactions", "args": ["tx"]}]}
     p2 = {"driver": "engine", "cfg": dict(plan["cfg"], comm=None, integer=False, name="replay"), "tree": tree, "feed": f, "extra": {}}
     from .. import drive_engine
 
